@@ -33,37 +33,45 @@ CHECKS = {
         text="Engine level: delivery schedules (symbolic choice per choice point, decided by z3) on workloads with AND / first-of / "
              "quorum joins and failing branches; at every task execution the join condition must hold on the durable upstream "
              "statuses of that instant (audit-trigger sequence numbers). Function level: evaluate_readiness executed "
-             "symbolically over all upstream statuses, join types, thresholds and flags against an independent statement of the property.",
-        note="Bounds: <=3 upstreams, choice depth 6 (quick) / 10 (thorough); OR-join activated-branch bookkeeping across split levels "
+             "symbolically over all upstream statuses, join types, thresholds and flags against an independent statement of the property. "
+             "Also: crash at every commit followed by symbolic choices of what the restarted worker handles first; a backward jump from a "
+             "parallel branch nested before every statement of the join's StartStage handler (S2 over SymDB, and thorough S1 race).",
+        note="Bounds: <=3 upstreams, choice depth 6 (quick) / 10 (thorough), one pre-emption; OR-join activated-branch bookkeeping across split levels "
              "and MULTI_MERGE re-firing are outside. Stubs as C01.",
         design="3/C03",
     ),
     "C05": dict(
         text="Every final state reached by the delivery-schedule exploration (symbolic choices decided by z3, exhaustive to the depth "
              "bound) is checked with the quiescence predicate; determine_status and _determine_final_status are executed symbolically "
-             "over all status combinations within the size bound.",
-        note="Bounds: workloads of the fixed family, choice depth 6/10, <=3 tasks and <=2 synthetic stages per stage in the function "
+             "over all status combinations within the size bound. Workloads include failing branches next to running ones, early-firing joins "
+             "and pre-declared synthetic before / after stages (parallel ones, failing ones, a failing sibling next to a running before-stage).",
+        note="Bounds: workloads of the fixed family, choice depth 6/10, late-message holds, <=3 tasks and <=2 synthetic stages per stage in the function "
              "lemmas; failPipeline=false (STOPPED) semantics are outside. Stubs as C01.",
         design="3/C05",
     ),
     "C06": dict(
         text="AFTER UPDATE OF status triggers on the three state tables observe every durable status change in the schedule, crash and "
-             "cancel explorations (control variables symbolic, decided by z3); each change must be in VALID_TRANSITIONS unless written "
-             "while a JumpToStage/RestartStage message is handled. The table itself is checked symbolically over all 144 pairs.",
-        note="Bounds: workloads and depths as C01/C02; two-worker interleavings only where the race harnesses exist. Stubs as C01.",
+             "cancel explorations (control variables symbolic, decided by z3); each change must be in VALID_TRANSITIONS; only the re-arm "
+             "(-> NOT_STARTED) written while a JumpToStage/RestartStage message is handled is exempt. Includes cancel + jump, cancel then "
+             "signal on a suspended stage, pause / unpause, another worker committing while a task body runs. The table itself is checked "
+             "symbolically over all 144 pairs.",
+        note="Bounds: workloads and depths as C01/C02; two-worker interleavings through the body-race and handler-race harnesses. Stubs as C01.",
         design="3/C06",
     ),
     "C10": dict(
         text="A recovery sweep is injected before every delivery step j (j symbolic, all values), also twice (j<=j2), with and without "
              "reordering; oracle = run without sweep (same final state, same executions). Crash half: for every crash commit, one sweep "
-             "versus two sweeps in a row give the same final state and executions.",
-        note="Bounds: single worker (a sweep concurrent with a handler is not covered), workloads of the fixed family. Stubs as C01.",
+             "versus two sweeps in a row give the same final state and executions. Concurrent sweep: committed while the n-th task body runs; "
+             "the whole sweep before the k-th SQL statement of a handler and one whole message handled before the k-th statement of a sweep "
+             "(real SQLite file, j and k symbolic).",
+        note="Bounds: two workers, one pre-emption; workloads of the fixed family. Stubs as C01.",
         design="3/C10",
     ),
     "C14": dict(
         text="A task raising TransientError n times (n symbolic, 0..14, decoded by z3) with/without context_update at task position 1-3; "
              "oracle: executions = min(n,10)+[n<10], terminal exactly when n>=10, attempt i+1 sees the progress of attempt i; polling "
-             "task keeps its saved context. The retry arithmetic and its queue round trip are also executed symbolically over SymDB (attempts and max_attempts symbolic).",
+             "task keeps its saved context. A chain of n consecutive failures (n symbolic) through the real error path and the real queue round trip over SymDB; progress kept in "
+             "a list mutated in place; two failing tasks in one stage (each its own budget).",
         note="Bounds: n<=14, <=3 tasks per stage, FIFO + 3 choice points of reordering (thorough). Backoff delays elapse on the virtual clock.",
         design="3/C14",
     ),
@@ -71,7 +79,8 @@ CHECKS = {
         text="Loop shapes (self loop, 2-4-stage cycle, side branch + fan-in, forward jump) with the requested iteration count symbolic "
              "(0..13) and max_jumps in {default,0,1,3}: every re-armed stage runs once per iteration, TERMINAL exactly when the budget "
              "is spent, termination within the step bound; traversal functions executed symbolically on all DAGs with <=5 stages "
-             "against a dominance oracle; ranking-function obligation discharged by z3.",
+             "against a dominance oracle; ranking-function obligation discharged by z3; one step of the real JumpToStageHandler with symbolic "
+             "_jump_count / _max_jumps over SymDB; shuffled delivery of the loops (quick: 4 symbolic choices).",
         note="Bounds: <=5 stages, iterations <=13, 5 choice points of reordering (thorough). Stubs as C01.",
         design="3/C15",
     ),
@@ -130,7 +139,8 @@ CHECKS = {
         text="BloomDeduplicator executed symbolically with the two digests of an id as symbolic integers (hashlib stubbed by an arbitrary "
              "function): no false negative after mark_seen / hydrate for every digest pair within the bound; the duplicate gate of "
              "_handle_message over all 64 combinations of its inputs; engine level: un-acked redelivery + worker restart / forced "
-             "filter rotation before every delivery step, negative cache off and on, handler invocations counted per message id.",
+             "filter rotation before every delivery step, negative cache off and on, handler invocations counted per message id; authority "
+             "observed while a hydration is in progress and after the id source failed part-way.",
         note="Bounds: 15-bit / 44-bit filters, digests < 3*size in the quick tier; real MD5/SHA1 outside; negative cache with a second "
              "process writing processed_messages is documented unsupported and excluded.",
         design="3/C09",
@@ -138,7 +148,7 @@ CHECKS = {
     "C11": dict(
         text="acquire_claim executed symbolically over SymDB for every owner / owner-status / steal combination; two sibling stages "
              "racing with one handler nested inside the other's read-to-write window (mutex and deferred choice); retention sweep over "
-             "all execution statuses; engine level: delivery schedules of the mutex and choice workloads with the retention sweep "
+             "all execution statuses x holder-stage statuses x claim kinds; engine level: delivery schedules of the mutex and choice workloads with the retention sweep "
              "injected before every step, audit triggers give the set of RUNNING stages per key after every commit.",
         note="Bounds: two siblings per group, two workers, schedule depth as C02. SymDB instead of SQLite (validated differentially).",
         design="3/C11",
@@ -156,17 +166,19 @@ CHECKS = {
     "C20": dict(
         text="Workflow.create / validate_stage_graph / topological_sort on every 3-stage graph (duplicate refs, unknown refs, self "
              "edges, cycles) against a DFS oracle, and _eval_node / evaluate_expression on every depth-2 tree over 12 leaf kinds and "
-             "every node class (plus 14 unsupported constructs), executed by CrossHair; the callers' handling of a failing condition.",
+             "every node class (plus 14 unsupported constructs), executed by CrossHair; the callers' handling of a failing condition; 17 classes "
+             "of hostile text (nesting repeated up to 5000 times, lone surrogate, NUL, huge literals) at three call-stack depths.",
         note="Bounds: graphs of 3 stages (4 in the thorough tier), expression depth 2 (6 root shapes at depth 3 thorough); text limited "
-             "to what ast.unparse of those trees produces; ast.parse (C) outside.",
+             "to what ast.unparse of those trees produces plus the hostile classes; ast.parse (C) is exercised concretely, not symbolically.",
         design="3/C20",
     ),
     "C12": dict(
         text="Crash-free delivery schedules (symbolic choices) with event sourcing on: EventReplayer.rebuild_workflow_state versus the store "
              "after quiescence; rebuild as of every prefix length q of the event log (q symbolic) against folding exactly the events with "
-             "sequence <= q; snapshot at every position p (symbolic) plus tail against the full replay; a cancel injected before every step.",
-        note="Bounds: workloads of the fixed family, 2-4 choice points, logs of <=60 events; entities force-marked by a jump are excluded as "
-             "the property says. The solver contributes the exhaustive choice of schedule / q / p; each path is a concrete run.",
+             "sequence <= q; snapshot at every position p (symbolic) plus tail against the full replay; a cancel injected before every step, also followed by 4 symbolic "
+             "reorderings; loop workloads included.",
+        note="Bounds: workloads of the fixed family, 2-4 choice points, logs of <=60 events; entities whose last durable status was force-written "
+             "by a jump are excluded as the property says (an entity re-run through the regular steps after a re-arm is included). The solver contributes the exhaustive choice of schedule / q / p; each path is a concrete run.",
         design="3/C12",
     ),
     "C13": dict(
@@ -182,7 +194,8 @@ CHECKS = {
         text="store/retrieve/retrieve_stage and both message serialisers + poll_one executed symbolically over SymDB with a value-carrying "
              "json stub: integer and boolean fields and the leaves of context/outputs/payload are symbolic (unbounded), every enum member "
              "and every class of MESSAGE_TYPES is covered, strings are chosen from a small set including non-ASCII and a 300-char value; "
-             "the two serialisers' payloads are compared.",
+             "the two serialisers' payloads are compared; a stored stage saved again with cleared / falsy / new values; free text that spells an enum "
+             "member or a JSON literal.",
         note="CPython's json itself (unicode escaping, floats, huge values) is outside: the claim is that the code passes values to json "
              "untouched and returns what json gives. SymDB instead of SQLite (validated differentially).",
         design="3/C19",
